@@ -7,7 +7,7 @@ Everything here still decides from the current source only (no execution of repo
   T4 option plumbing: a keyword option of a public function that is never read is a dropped option (INFO)
   T5 the property's own self-test variants are re-run on scratch copies; the catch rate is recorded in the evidence
      (checker validation - never a VIOLATION of the property)
-  T6 the check is re-run on 99 behaviour-preserving AST transformations of the core files (tools/neutral.py): a false alarm makes the
+  T6 the check is re-run on 132 behaviour-preserving AST transformations of the core files (tools/neutral.py): a false alarm makes the
      run UNDECIDED (exit 2), never a VIOLATION
 """
 import ast
@@ -187,7 +187,7 @@ def selftest_rate(ctx):
 
 
 def neutral_rate(ctx):
-    """T6: the property's check is re-run on 99 behaviour-preserving transformations of the core files (tools/neutral.py): all must stay clean.
+    """T6: the property's check is re-run on 132 behaviour-preserving transformations of the core files (tools/neutral.py): all must stay clean.
     Checker validation only - a false alarm here is reported as UNDECIDED (the check is not to be trusted), never as a VIOLATION of the property."""
     if ctx.P.repo != '/repo':
         return
